@@ -15,13 +15,20 @@
 (***************************************************************************)
 EXTENDS Integers, Sequences, FiniteSets, TLC
 
+CONSTANTS FlipBits,     \* bit positions the relay flips: 0..127 = the clear-text inner header, 128.. = ciphertext/tag
+          Retypes       \* 16*type + subtype the relay writes into the clear-text inner header (ciphertext untouched)
+
 Senders == {"A", "M"}                       \* endpoints that both reach T through R
-InnerAlter == {"none", "flipbody", "fliphdr", "truncate", "splice", "replayed", "garbage"}
+SimpleAlter == {"none", "truncate", "splice", "replayed", "garbage", "newcounter"}
         \* splice: header of this sender's packet + ciphertext of the other sender's packet
         \* replayed: the unaltered inner packet a second time
+        \* newcounter: a fresh, never used counter in the clear-text header over the genuine ciphertext
+InnerAlter == SimpleAlter \cup {"flipbit", "retype"}
 Claims == {"own", "other"}                  \* relay record used: the sender's own leg, or the other endpoint's leg
 
-Inputs == [sender : Senders, alter : InnerAlter, claim : Claims]
+Inputs == [sender : Senders, alter : SimpleAlter, claim : Claims, arg : {0}]
+          \cup [sender : Senders, alter : {"flipbit"}, claim : Claims, arg : FlipBits]
+          \cup [sender : Senders, alter : {"retype"}, claim : Claims, arg : Retypes]
 
 \* Reference: the packet is attributed to the endpoint whose tunnel key authenticates Inner -- never to the
 \* claimed peer -- and anything else is dropped without effect.
